@@ -48,6 +48,22 @@ from solvor.types import Result
 __all__ = ["articulation_points", "bridges"]
 
 
+def _undirected_adjacency[S](node_list: list[S], neighbors: Callable[[S], Iterable[S]]) -> dict[S, dict[S, None]]:
+    """Symmetric adjacency inside the node set (insertion ordered, no self loops).
+
+    The neighbour callback may list an edge from one endpoint only; the algorithms
+    below need to see it from both.
+    """
+    node_set = set(node_list)
+    adj: dict[S, dict[S, None]] = {v: {} for v in node_list}
+    for v in node_list:
+        for w in neighbors(v):
+            if w in node_set and w != v:
+                adj[v][w] = None
+                adj[w][v] = None
+    return adj
+
+
 def articulation_points[S](
     nodes: Iterable[S],
     neighbors: Callable[[S], Iterable[S]],
@@ -62,7 +78,7 @@ def articulation_points[S](
     if n <= 1:
         return Result(set(), 0, 0, n)
 
-    node_set = set(node_list)
+    adj = _undirected_adjacency(node_list, neighbors)
     discovery: dict[S, int] = {}
     low: dict[S, int] = {}
     parent: dict[S, S | None] = {}
@@ -79,10 +95,7 @@ def articulation_points[S](
         low[v] = time[0]
         time[0] += 1
 
-        for w in neighbors(v):
-            if w not in node_set:
-                continue
-
+        for w in adj[v]:
             if w not in discovery:
                 children += 1
                 parent[w] = v
@@ -125,7 +138,7 @@ def bridges[S](
     if n <= 1:
         return Result([], 0, 0, n)
 
-    node_set = set(node_list)
+    adj = _undirected_adjacency(node_list, neighbors)
     discovery: dict[S, int] = {}
     low: dict[S, int] = {}
     parent: dict[S, S | None] = {}
@@ -141,10 +154,7 @@ def bridges[S](
         low[v] = time[0]
         time[0] += 1
 
-        for w in neighbors(v):
-            if w not in node_set:
-                continue
-
+        for w in adj[v]:
             if w not in discovery:
                 parent[w] = v
                 dfs(w)
